@@ -166,7 +166,7 @@ Proof.
   apply Hall, uptoZ_in, Hz.
 Qed.
 
-(* usage:  byte_facts x Hx   proves a conjunction of Z equalities / order facts about a byte x *)
+(* turns a hypothesis  b1 && b2 && ... = true  over Z.eqb / Z.leb / Z.ltb into the conjunction of facts *)
 Ltac solve_bool_to_prop :=
   let H := fresh in
   intros; match goal with H : _ = true |- _ =>
